@@ -167,6 +167,10 @@ class BuiltinModel:
     def rat_pow(self, a: V, e: VInt) -> V:
         ra = rv(a)
         if self.path.branch(z3.And(ra == 0, e.t < 0)):
+            # decimalfp raises ValueError('math domain error'), Fraction
+            # ZeroDivisionError (A2)
+            if isinstance(a, VRat) and self.path.branch(a.tag == T_DEC):
+                self.I.raise_("ValueError")
             self.I.raise_("ZeroDivisionError")
         val = S.qpow(ra, e.t, self.path)
         ka = a.known_tag() if isinstance(a, VRat) else T_INT
@@ -1080,6 +1084,13 @@ class BuiltinModel:
             self.setitem(d, k, v)
         return NONE
 
+    def bi_Dict_setdefault(self, d, k, dflt=NONE):
+        key = M.to_key(self.dict_kind(d), k, self.I)
+        if self.path.branch(z3.Select(self.dict_dom(d), key)):
+            return self.dict_lookup(d, key)
+        self.dict_store(d, key, dflt)
+        return dflt
+
     def bi_Dict_get(self, d, k, dflt=NONE):
         key = M.to_key(self.dict_kind(d), k, self.I)
         if self.path.branch(z3.Select(self.dict_dom(d), key)):
@@ -1197,8 +1208,15 @@ class BuiltinModel:
                                   self.path.branch(x.tag == T_STDDEC)):
                 self.ledger("A2: Decimal(decimal.Decimal) converts exactly")
                 return VRat(x.t, z3.IntVal(T_DEC))
-            # Fraction / float: exact if representable, else ValueError (A2)
-            self.ledger("A2: Decimal(Fraction|float) converts exactly or "
+            if kt == T_FLOAT or (kt is None and
+                                 self.path.branch(x.tag == T_FLOAT)):
+                # every finite float has a finite decimal expansion (A2);
+                # callers guarding with `except ValueError` (inf / nan) are
+                # outside the model (floats are finite reals here)
+                self.ledger("A2: Decimal(finite float) converts exactly")
+                return VRat(x.t, z3.IntVal(T_DEC))
+            # Fraction: exact if representable, else ValueError (A2)
+            self.ledger("A2: Decimal(Fraction) converts exactly or "
                         "raises ValueError")
             if self.path.branch(S.dec_representable(x.t)):
                 return VRat(x.t, z3.IntVal(T_DEC))
